@@ -256,7 +256,8 @@ func Run(c *core.Ctx, replay string) (*core.Result, error) {
 	if len(recs) == 0 {
 		return nil, core.Inconcl("no rand function was exercised (%d programs left out)", skippedProgs)
 	}
-	bad, err := c.JudgeTrace(res, "TraceRand", recs)
+	// (in slices: 50 packages x 80 values per type do not fit TLC's heap as one trace)
+	bad, err := c.JudgeTraceChunked(res, "TraceRand", recs, 48<<20)
 	if err != nil {
 		return nil, err
 	}
